@@ -66,19 +66,19 @@ type priceState struct {
 }
 
 type c15World struct {
-	w       *l2World
-	r       *core.Run
-	pool    []*l1Val          // all candidate L1 validators
-	set     map[string]*l1Val // model of the stored host set, by address
-	setH    int64             // model of the stored host height (0: none)
-	veCodec connectcodec.VoteExtensionCodec
-	ecCodec connectcodec.ExtendedCommitCodec
-	old     [][]byte // earlier update payloads (for replays)
-	oldH    []uint64
-	oldVotes [][]c15Vote
-	oldRound []int32
-	lastTS  int64
-	updatesOK int
+	w              *l2World
+	r              *core.Run
+	pool           []*l1Val          // all candidate L1 validators
+	set            map[string]*l1Val // model of the stored host set, by address
+	setH           int64             // model of the stored host height (0: none)
+	veCodec        connectcodec.VoteExtensionCodec
+	ecCodec        connectcodec.ExtendedCommitCodec
+	old            [][]byte // earlier update payloads (for replays)
+	oldH           []uint64
+	oldVotes       [][]c15Vote
+	oldRound       []int32
+	lastTS         int64
+	updatesOK      int
 	pendingMembers []*l1Val
 }
 
@@ -327,7 +327,7 @@ func (c *c15World) genUpdate() (*opchildtypes.MsgUpdateOracle, []c15Vote, uint64
 			mk(v, v.Addr, v.Power, cmtproto.BlockIDFlagCommit, pricesFor(), "ok")
 			continue
 		}
-		switch r.Weighted([]int{10, 3, 1, 1, 1, 1, 1, 1, 1}) {
+		switch r.Weighted([]int{10, 3, 1, 1, 1, 1, 2, 1, 1}) {
 		case 0:
 			mk(v, v.Addr, v.Power, cmtproto.BlockIDFlagCommit, pricesFor(), "ok")
 		case 1:
@@ -348,7 +348,7 @@ func (c *c15World) genUpdate() (*opchildtypes.MsgUpdateOracle, []c15Vote, uint64
 			// duplicated entry, second one with attacker-chosen prices and a forged signature
 			mk(v, v.Addr, v.Power, cmtproto.BlockIDFlagCommit, pricesFor(), "ok")
 			evil := map[string]*big.Int{"TIMESTAMP/NANOSECOND": big.NewInt(ts), "BTC/USD": big.NewInt(1), "ETH/USD": big.NewInt(1)}
-			mk(v, v.Addr, v.Power, cmtproto.BlockIDFlagCommit, evil, []string{"flipped", "other-key", "ok"}[r.Intn(3)])
+			mk(v, v.Addr, v.Power, cmtproto.BlockIDFlagCommit, evil, []string{"flipped", "other-key", "ok", "ok"}[r.Intn(4)])
 			tags = append(tags, "duplicate-entry")
 		case 7:
 			// the same valid vote repeated (power must not count twice)
